@@ -1,6 +1,7 @@
 import Mathlib.Topology.MetricSpace.Basic
 import Mathlib.Analysis.Normed.Module.Basic
 import Mathlib.Analysis.Convex.Hull
+import Mathlib.Analysis.Normed.Module.Convex
 import Mathlib.Tactic.Linarith
 import Mathlib.Tactic.Ring
 import Mathlib.Tactic.FieldSimp
@@ -57,6 +58,14 @@ theorem disjoint_not_subset {A B : Set X} (hB : B.Nonempty) (hd : Disjoint A B) 
   obtain ⟨x, hx⟩ := hB
   exact (Set.disjoint_left.1 hd) (h hx) hx
 
+/-- contract `bbox`: solids whose images under a coordinate function lie in separated intervals are disjoint
+    (axis-aligned bounding boxes that fail to overlap in one dimension) -/
+theorem coordinate_separation_disjoint {Y : Type*} {A B : Set Y} (f : Y → ℝ) {a2 b1 : ℝ}
+    (hA : ∀ x ∈ A, f x ≤ a2) (hB : ∀ x ∈ B, b1 ≤ f x) (h : a2 < b1) : Disjoint A B := by
+  rw [Set.disjoint_left]
+  intro x hxA hxB
+  linarith [hA x hxA, hB x hxB]
+
 end MetricSpace
 
 section Normed
@@ -106,6 +115,12 @@ theorem inballs_overlap_intersect {A B : Set E} {a b : E} {ra rb : ℝ}
 theorem convex_contains_of_vertices {A B V : Set E} (hA : Convex ℝ A) (hV : V ⊆ A)
     (hB : B ⊆ convexHull ℝ V) : B ⊆ A :=
   hB.trans (convexHull_min hV hA)
+
+/-- contract `circA` from vertex facts: a solid inside the hull of vertices that are all within `R` of `c`
+    lies in the closed ball (what `numpy.max(numpy.linalg.norm(vertices - c, axis=1))` delivers) -/
+theorem hull_subset_closedBall {A V : Set E} {c : E} {R : ℝ} (hA : A ⊆ convexHull ℝ V)
+    (hV : ∀ v ∈ V, dist v c ≤ R) : A ⊆ closedBall c R :=
+  hA.trans (convexHull_min (fun v hv => mem_closedBall.2 (hV v hv)) (convex_closedBall c R))
 
 end Normed
 
